@@ -6,6 +6,7 @@ from __future__ import annotations
 import hashlib
 import json
 import multiprocessing as mp
+import multiprocessing.pool
 import os
 import random
 import re
@@ -312,6 +313,28 @@ def match_known(known, prop, harness, viol):
     return None
 
 
+class _NoDaemonProcess(mp.context.ForkProcess):
+    """worker that may itself start processes (float replays of C15 use the real ProcessPoolExecutor)"""
+
+    @property
+    def daemon(self):
+        return False
+
+    @daemon.setter
+    def daemon(self, value):
+        pass
+
+
+class _NoDaemonContext(type(mp.get_context("fork"))):
+    Process = _NoDaemonProcess
+
+
+class _NestablePool(mp.pool.Pool):
+    def __init__(self, *a, **k):
+        k["context"] = _NoDaemonContext()
+        super().__init__(*a, **k)
+
+
 def run_property(prop, harness_specs, tier, seed, level_note="", only=None, jobs=None):
     """harness_specs: list of (module name, class name)"""
     import importlib
@@ -327,9 +350,8 @@ def run_property(prop, harness_specs, tier, seed, level_note="", only=None, jobs
             tasks.append((hmod, hname, cfg, tier, seed))
     tasks.sort(key=lambda t: -meta[t[1]].cost * float(t[2].get("_cost", 1)))
     jobs = jobs or min(16, os.cpu_count() or 4, max(1, len(tasks)))
-    ctx = mp.get_context("fork")
     results = []
-    with ctx.Pool(jobs, maxtasksperchild=4) as pool:
+    with _NestablePool(jobs, maxtasksperchild=4) as pool:
         for r in pool.imap_unordered(run_task, tasks, chunksize=1):
             results.append(r)
     results.sort(key=lambda r: (r["harness"], json.dumps(r["cfg"], sort_keys=True)))
